@@ -220,7 +220,7 @@ Definition run (args : list bytes) : bytes :=
       if starts_with (L "x-") k then L "total"
       else match rest with
       | [a] =>
-          if bytes_eqb k (L "script") then match hexarg a with Some s => L "ok" ++ RunC16.show_streams s | None => err "hex" end
+          if bytes_eqb k (L "script") then RunC16.run [L "script"; a]
           else if bytes_eqb k (L "rint") then RunC16.run [L "rint"; a]
           else if bytes_eqb k (L "addr") then match hexarg a with Some s => show_four s | None => err "hex" end
           else if bytes_eqb k (L "hrp") then match hexarg a with Some s => run_hrp s | None => err "hex" end
